@@ -35,6 +35,7 @@ class Info:
         self.dims_passed = []    # DimensionSet objects handed to a constructor
         self.new_arrays_from_ctor = False
         self.c05 = None
+        self.indep_raw = []      # raw ndarrays the result must be independent of (e.g. an array fill value)
         self.fired = None
         self.kind = ""
         self.stock = None
@@ -170,6 +171,12 @@ def op_mk(st, op, info):
         info.indep = True
         if via == "copy":
             r = call(st, op, lambda: src.copy(), info)
+        elif op.get("fill_nd") and isinstance(src.values, np.ndarray):
+            # an ndarray fill value of the template's full shape (and dtype)
+            fill = int_values(op.get("vseed", 0), src.values.shape).astype(src.values.dtype if src.values.dtype.kind in "fi" else np.float64)
+            info.raw.append(("ndarray", fill, fill.copy(), lambda s_, o: values_equal(s_, o)))
+            info.indep_raw = [fill]
+            r = call(st, op, lambda: FlodymArray.full_like(src, fill), info)
         else:
             r = call(st, op, lambda: FlodymArray.full_like(src, float(op.get("num", 2))), info)
         if info.outcome == "ret":
@@ -612,10 +619,18 @@ def op_stock(st, op, info):
             arr = StockArray(dims=wrong, values=int_values(op.get("vseed", 0), tuple(len(d.items) for d in wrong)))
             info.must_raise = "stock-dims-rejected"
             st.fault("stock_array_other_dims")
+        elif how == "other_items" and len(order) >= 2:
+            # same letters, same lengths, but other labels (another scenario's regions): accepted - and must stay as it is
+            dl_ = list(ds)
+            k_ = 1 + op.get("vseed", 0) % (len(dl_) - 1)
+            d_ = dl_[k_]
+            dl_[k_] = Dimension(name=d_.name + "Other", letter=d_.letter, items=[f"other{i}" for i in range(len(d_.items))], dtype=str)
+            arr = StockArray(dims=DimensionSet(dim_list=dl_), values=int_values(op.get("vseed", 0), shape, 0, 9))
+            st.probe("stock_array_same_shape_other_labels")
         elif how == "twin_dims" and len(order) >= 2:
             dl_ = list(ds)
             k_ = 1 + op.get("vseed", 0) % (len(dl_) - 1)
-            dl_[k_] = _twin_of(dl_[k_], bool(op.get("vseed", 0) % 2))
+            dl_[k_] = _twin_of(dl_[k_], bool(op.get("vseed", 0) % 2), repeat=op.get("vseed", 0) % 3 == 0)
             tw = DimensionSet(dim_list=dl_)
             arr = StockArray(dims=tw, values=int_values(op.get("vseed", 0), tuple(len(d.items) for d in tw)))
             info.must_raise = "stock-dims-rejected"
@@ -628,6 +643,7 @@ def op_stock(st, op, info):
         else:
             arr = StockArray(dims=ds, values=int_values(op.get("vseed", 0) + len(given), shape, 0, 9))
         given.append(arr)
+        info.raw.append(("stock array handed to the constructor", arr, snap_array(arr), lambda s_, o: same_as_snap(s_, o)))
         kw[role] = arr
     info.inputs = given
     cls = {"simple": SimpleFlowDrivenStock, "inflow": InflowDrivenDSM, "stockdriven": StockDrivenDSM}[op["cls"]]
@@ -643,7 +659,7 @@ def op_stock(st, op, info):
             # same letters as the stock, but one dimension of the model has another number of items
             dl_ = list(ds)
             k_ = 1 + op.get("vseed", 0) % (len(dl_) - 1)
-            dl_[k_] = _twin_of(dl_[k_], True)
+            dl_[k_] = _twin_of(dl_[k_], True, repeat=op.get("vseed", 0) % 3 == 0)
             kw["lifetime_model"] = FixedLifetime(dims=DimensionSet(dim_list=dl_), mean=2.0)
             info.must_raise = info.must_raise or "stock-dims-rejected"
             st.fault("lifetime_model_same_letters_other_items")
@@ -659,9 +675,12 @@ def op_stock(st, op, info):
         info.stock = r
 
 
-def _twin_of(d, more):
+def _twin_of(d, more, repeat=False):
     """a dimension with the letter of `d` but another name and item count (an object from another model)"""
     items = list(d.items)
+    if repeat:
+        # the same labels, one of them twice (a duplicated row in a dimension file): equal item sets, another length
+        return Dimension(name=d.name + "Foreign", letter=d.letter, items=items + items[:1], dtype=d.dtype)
     items = items + [(max(items) + 1000) if all(isinstance(x, int) for x in items) else "foreign_item"] if more or len(items) == 1 else items[:1]
     return Dimension(name=d.name + "Foreign", letter=d.letter, items=items, dtype=d.dtype)
 
